@@ -326,3 +326,31 @@ fn ser_ipfix_varlen_kf() {
     }
     core::mem::forget(p);
 }
+
+/// C09: flowsets whose length field is below 4 are accepted (empty body, 4 header bytes
+/// consumed) and must re-export as those 4 bytes.
+#[kani::proof]
+#[kani::stub(core::fmt::write, no_fmt)]
+fn ser_v9_short_length() {
+    const N: usize = 6;
+    let mut p = v9::V9Parser::default();
+    let mut buf: [u8; N] = kani::any();
+    buf[0] = 0;
+    kani::assume(buf[1] <= 1); // template or options-template flowset id
+    buf[2] = 0;
+    kani::assume(buf[3] < 4);
+    match v9::FlowSet::parse(&buf, &mut p) {
+        Ok((rem, fs)) => {
+            assert!(rem.len() == 2);
+            let pkt = v9::V9 { header: v9_header(), flowsets: vec![fs] };
+            check_v9_out!(pkt, buf, 4usize);
+            kani::cover!(buf[3] == 0 && buf[1] == 1);
+            core::mem::forget(pkt);
+        }
+        Err(e) => {
+            assert!(false);
+            core::mem::forget(e);
+        }
+    }
+    core::mem::forget(p);
+}
